@@ -227,7 +227,7 @@ def classify_overlap(mt, cu, q, a, b, rel):
         return 'overlap:en-day-after-tomorrow-split-by-irregular-white-space'
     # known-finding classifier: one participant is a date-time entity that swallowed a filler separating two expressions
     # (pt-br: PrepositionRegex matches the empty string, so ANY text between a date and a time is a connector; nl-nl: 'tot <time> . <n> op de <n>')
-    if mt == 'DateTimeModel' and cu in ('pt-br', 'nl-nl', 'de-de'):
+    if mt == 'DateTimeModel' and cu in ('pt-br', 'nl-nl', 'de-de', 'fr-fr'):
         fills = [f.strip() for f in CULT_FILLERS.get(cu, []) + FILLERS if f.strip()]
         if any((' %s ' % f) in (' %s ' % str(x[3])) or (f in '.;|' and f in str(x[3])) for x in (a, b) for f in fills):
             return 'overlap:date-time-entity-spans-a-filler'
